@@ -162,6 +162,57 @@ theorem unquote_step (f : Nat) (t : List Nat) :
   obtain ⟨n1, n2, n3, n4, n5, n6, n7, n8, n9, n10, n11, n12⟩ := he
   simp [unquoteBody, n1, n2, n3, n4, n5, n6, n7, n8, n9, n10, n11, n12, h1, h2, h3, h4, h5, h6]
 
+/-! ## When the lexer gets to `lexValue` -/
+
+/-- **lexToken_dispatches_value.** Whenever the lexer stands at a token boundary (that is where
+    `lexToken` is called: after skipWhiteSpace) and the next byte is a quote, or an `r` directly
+    followed by a quote, `lexToken` IS `lexValue` — run on the state skipWhiteSpace leaves, which has
+    the same input and position (only `skippedNewline` is reset: string tokens always carry
+    `PrefixNewlines = 0`). So the four theorems above apply to every literal that starts a token.
+    They do NOT apply to quote characters inside a word: `ar"x⏎y"` is one identifier-error token
+    (the text block lexer takes `ar"x` up to the white space; see the example below), exactly as in Go. -/
+theorem lexToken_dispatches_value (l : L)
+    (h : l.peek 1 = some 34 ∨ l.peek 1 = some 39 ∨
+      (l.peek 1 = some 114 ∧ (l.peek 2 = some 34 ∨ l.peek 2 = some 39))) :
+    lexToken l = lexValue (skipWhiteSpace l).1 ∧
+    (skipWhiteSpace l).1.pos = l.pos ∧ (skipWhiteSpace l).1.inp = l.inp ∧
+    (skipWhiteSpace l).1.toks = l.toks := by
+  have hc : ∃ c, l.peek 1 = some c ∧ (c = 34 ∨ c = 39 ∨ c = 114) := by
+    rcases h with h | h | ⟨h, _⟩
+    · exact ⟨34, h, by simp⟩
+    · exact ⟨39, h, by simp⟩
+    · exact ⟨114, h, by simp⟩
+  obtain ⟨c, hpk, hcc⟩ := hc
+  obtain ⟨hp, hd⟩ := peek1_some hpk
+  have hb : blank (some (decodeRune l.inp l.pos).1) = false := by
+    rw [hd]; rcases hcc with rfl | rfl | rfl <;> decide
+  obtain ⟨e1, e2⟩ := sws_pos l hp hb
+  have htrue := sws_true l hp hb
+  have hext := sws_ext l
+  refine ⟨?_, e1, e2, ?_⟩
+  · have n1 : ¬ (l.peek 1 = some 47) := by rw [hpk]; rcases hcc with rfl | rfl | rfl <;> decide
+    have n2 : ¬ (l.peek 1 = some 35) := by rw [hpk]; rcases hcc with rfl | rfl | rfl <;> decide
+    have hv : ((l.peek 1 = some 34 ∨ l.peek 1 = some 39) ∨
+        (l.peek 1 = some 114 ∧ (l.peek 2 = some 34 ∨ l.peek 2 = some 39))) := by
+      rcases h with h | h | h
+      · exact Or.inl (Or.inl h)
+      · exact Or.inl (Or.inr h)
+      · exact Or.inr h
+    simp only [lexToken, n1, n2, decide_false, Bool.false_and, Bool.or_self, Bool.false_eq_true, if_false]
+    have : ((decide (l.peek 1 = some 34) || decide (l.peek 1 = some 39)) ||
+        (decide (l.peek 1 = some 114) && (decide (l.peek 2 = some 34) || decide (l.peek 2 = some 39)))) = true := by
+      simpa using hv
+    simp only [this, if_true, htrue]
+  · -- skipWhiteSpace on a non-blank rune emits nothing
+    have hn : ¬ l.pos ≥ l.inp.size := by omega
+    simp only [skipWhiteSpace, L.next, hn, if_false]
+    rw [show l.inp.size + 2 = (l.inp.size + 1) + 1 from rfl]
+    simp only [skipWhiteSpace.loop, hb, Bool.false_eq_true, if_false, L.backup]
+
+/-- the start state of `lex` on an input that begins with a literal dispatches to `lexValue` -/
+example : lexToken { inp := #[114, 34, 97, 34] } = lexValue (skipWhiteSpace { inp := #[114, 34, 97, 34] }).1 :=
+  (lexToken_dispatches_value _ (Or.inr (Or.inr ⟨by decide, Or.inl (by decide)⟩))).1
+
 /-! ## Non-vacuity: concrete literals through the whole lexer `lex` -/
 
 /-- (kind, value, allowEscapes) of every token -/
@@ -204,5 +255,15 @@ example : ((kinds [34, 120, 10, 121, 34]).map (·.1)).head? = some tERROR ∧
     ((kinds [39, 105, 116, 92, 39, 115, 39]).map (·.1)).head? = some tERROR ∧
     ((kinds [34, 92, 117, 100, 56, 48, 48, 34]).map (·.1)).head? = some tERROR ∧
     ((kinds [34, 97, 98, 99]).map (·.1)).head? = some tERROR := by decide +kernel
+
+/-- the counter-example to "every `r"` starts a raw literal": inside a word it does not —
+    `ar"x⏎y"` is ONE error token (Cannot parse identifier `ar"x`), in the model and in Go -/
+example : (kinds [97, 114, 34, 120, 10, 121, 34]).map (·.1) = [tERROR] := by decide +kernel
+
+/-- … while after a token boundary (blank, symbol) the literal is lexed: `a r"x⏎y"` and `(r"x")` -/
+example : (kinds [97, 32, 114, 34, 120, 10, 121, 34]).map (fun k => (k.1, k.2.1)) =
+    [(tIDENTIFIER, [97]), (tSTRING, [120, 10, 121]), (tEOF, [])] ∧
+    (kinds [40, 114, 34, 120, 34, 41]).map (fun k => (k.1, k.2.1)) =
+    [(22, [40]), (tSTRING, [120]), (23, [41]), (tEOF, [])] := by decide +kernel
 
 end Ecal.Props.C14Lex
